@@ -38,6 +38,7 @@ type wCfg struct {
 	Tadv   int  `json:"tadv"`
 	Cont   bool `json:"cont"`
 	Notrim bool `json:"notrim"`
+	Tdir   int  `json:"tdir"` // direction of the truncator run
 }
 
 type wPrepare struct {
@@ -153,16 +154,17 @@ func segFacts(text []rune) (wb, mb, gb []int) {
 }
 
 type wrapScenario struct {
-	id    string
-	cls   string
-	text  []rune
-	build func() []shaping.Output // fresh inputs (the wrapper writes into the glyph arrays)
-	lvls  []int
-	cfg   wCfg
-	width int
-	api   string // para | next
-	delta int    // next api: width of odd lines = width + delta
-	syn   *synth
+	id           string
+	cls          string
+	text         []rune
+	build        func() []shaping.Output // fresh inputs (the wrapper writes into the glyph arrays)
+	lvls         []int
+	cfg          wCfg
+	width        int
+	api          string // para | next
+	delta        int    // next api: width of odd lines = width + delta
+	syn          *synth
+	abandonAfter int // next api: stop calling WrapNextLine after this many lines (0 = run to the end)
 }
 
 func makeTruncator(pdir di.Direction, adv fixed.Int26_6) shaping.Output {
@@ -193,8 +195,12 @@ func runScenario(enc *json.Encoder, lw *shaping.LineWrapper, s wrapScenario) {
 			"gp": s.syn.glyphsPer, "alt": s.syn.advAlt, "ls": s.syn.ls, "ws": s.syn.ws, "cfg": s.cfg, "w": s.width, "api": s.api, "delta": s.delta}
 	}
 	enc.Encode(p)
+	tdir := di.DirectionLTR
+	if s.cfg.Tdir == 1 {
+		tdir = di.DirectionRTL
+	}
 	wc := shaping.WrapConfig{Direction: pdir, BreakPolicy: shaping.LineBreakPolicy(s.cfg.Pol), TruncateAfterLines: s.cfg.Trunc,
-		TextContinues: s.cfg.Cont, DisableTrailingWhitespaceTrim: s.cfg.Notrim, Truncator: makeTruncator(pdir, fixed.Int26_6(s.cfg.Tadv))}
+		TextContinues: s.cfg.Cont, DisableTrailingWhitespaceTrim: s.cfg.Notrim, Truncator: makeTruncator(tdir, fixed.Int26_6(s.cfg.Tadv))}
 	var events []interface{}
 	abnormal := ""
 	func() {
@@ -233,6 +239,11 @@ func runScenario(enc *json.Encoder, lw *shaping.LineWrapper, s wrapScenario) {
 				wl, done := lw.WrapNextLine(w)
 				events = append(events, wLine{Ev: "L", Runs: outRunRecs(wl.Line), Truncated: wl.Truncated, Next: wl.NextLine, Done: done, W: w})
 				if done {
+					break
+				}
+				if s.abandonAfter > 0 && i+1 >= s.abandonAfter {
+					// the caller loses interest in the rest of this paragraph (the wrapper is re-used afterwards)
+					events = append(events, map[string]interface{}{"ev": "A"})
 					break
 				}
 				if i > 4*len(s.text)+8 {
@@ -518,8 +529,15 @@ func wrapMain(args []string) error {
 										cls = "lsrtl"
 									}
 								}
+								tdirv := pdir
+								if tr > 0 && rng.Intn(4) == 0 {
+									tdirv = 1 - pdir
+								}
 								sc := wrapScenario{id: s.key(), cls: cls, text: s.text, build: s.build, lvls: levelsFor(s.dirs, pdir),
-									cfg: wCfg{Pdir: pdir, Pol: pol, Trunc: tr, Tadv: 64, Cont: cont, Notrim: notrim}, width: w, api: api, delta: delta}
+									cfg: wCfg{Pdir: pdir, Pol: pol, Trunc: tr, Tadv: 64, Cont: cont, Notrim: notrim, Tdir: tdirv}, width: w, api: api, delta: delta}
+								if api == "next" && rng.Intn(5) == 0 {
+									sc.abandonAfter = 1 + rng.Intn(2)
+								}
 								sc.syn = &s
 								runScenario(sw.encs[sh], lws[sh], sc)
 								paras++
@@ -560,7 +578,8 @@ func wrapMain(args []string) error {
 					variants := []struct {
 						trunc int
 						cont  bool
-					}{{0, false}, {1, true}}
+						tflip int
+					}{{0, false, 0}, {1, true, 0}, {1, true, 1}}
 					for _, v := range variants {
 						text := make([]rune, n)
 						for i := range text {
@@ -575,8 +594,8 @@ func wrapMain(args []string) error {
 							s.runSplit = append(s.runSplit, i)
 						}
 						s.dirs = dirs
-						sc := wrapScenario{id: fmt.Sprintf("levels=%v base=%d space=%d trunc=%d", lv, base, spaceAt, v.trunc), cls: "bidi", text: text, build: s.build,
-							lvls: lv, cfg: wCfg{Pdir: base, Pol: 0, Trunc: v.trunc, Tadv: 64, Cont: v.cont}, width: 1000, api: "next"}
+						sc := wrapScenario{id: fmt.Sprintf("levels=%v base=%d space=%d trunc=%d tflip=%d", lv, base, spaceAt, v.trunc, v.tflip), cls: "bidi", text: text, build: s.build,
+							lvls: lv, cfg: wCfg{Pdir: base, Pol: 0, Trunc: v.trunc, Tadv: 64, Cont: v.cont, Tdir: (base + v.tflip) % 2}, width: 1000, api: "next"}
 						sc.syn = &s
 						sh := paras % shards
 						runScenario(sw.encs[sh], lws[sh], sc)
